@@ -39,6 +39,9 @@ fn mac_digit(acc: &mut [BigDigit], b: &[BigDigit], c: BigDigit) {
     if c == 0 {
         return;
     }
+    #[cfg(num_bigint_verif)]
+    crate::verif_probe::MAC_WORK
+        .fetch_add(b.len() as u64, core::sync::atomic::Ordering::Relaxed);
 
     let mut carry = 0;
     let (a_lo, a_hi) = acc.split_at_mut(b.len());
@@ -48,6 +51,10 @@ fn mac_digit(acc: &mut [BigDigit], b: &[BigDigit], c: BigDigit) {
     }
 
     let (carry_hi, carry_lo) = big_digit::from_doublebigdigit(carry);
+    #[cfg(num_bigint_verif)]
+    if carry_hi != 0 {
+        crate::verif_probe::hit(23);
+    }
 
     let final_carry = if carry_hi == 0 {
         __add2(a_hi, &[carry_lo])
@@ -68,6 +75,8 @@ fn mac3(mut acc: &mut [BigDigit], mut b: &[BigDigit], mut c: &[BigDigit]) {
     // Least-significant zeros have no effect on the output.
     if let Some(&0) = b.first() {
         if let Some(nz) = b.iter().position(|&d| d != 0) {
+            #[cfg(num_bigint_verif)]
+            crate::verif_probe::hit(22);
             b = &b[nz..];
             acc = &mut acc[nz..];
         } else {
@@ -76,6 +85,8 @@ fn mac3(mut acc: &mut [BigDigit], mut b: &[BigDigit], mut c: &[BigDigit]) {
     }
     if let Some(&0) = c.first() {
         if let Some(nz) = c.iter().position(|&d| d != 0) {
+            #[cfg(num_bigint_verif)]
+            crate::verif_probe::hit(22);
             c = &c[nz..];
             acc = &mut acc[nz..];
         } else {
@@ -99,11 +110,15 @@ fn mac3(mut acc: &mut [BigDigit], mut b: &[BigDigit], mut c: &[BigDigit]) {
     // of `cargo bench --bench bigint multiply`.
 
     if x.len() <= 32 {
+        #[cfg(num_bigint_verif)]
+        crate::verif_probe::hit(14);
         // Long multiplication:
         for (i, xi) in x.iter().enumerate() {
             mac_digit(&mut acc[i..], y, *xi);
         }
     } else if x.len() * 2 <= y.len() {
+        #[cfg(num_bigint_verif)]
+        crate::verif_probe::hit(15);
         // Karatsuba Multiplication for factors with significant length disparity.
         //
         // The Half-Karatsuba Multiplication Algorithm is a specialized case of
@@ -163,6 +178,8 @@ fn mac3(mut acc: &mut [BigDigit], mut b: &[BigDigit], mut c: &[BigDigit]) {
         mac3(acc, x, low2);
         mac3(&mut acc[m2..], x, high2);
     } else if x.len() <= 256 {
+        #[cfg(num_bigint_verif)]
+        crate::verif_probe::hit(16);
         // Karatsuba multiplication:
         //
         // The idea is that we break x and y up into two smaller numbers that each have about half
@@ -260,6 +277,12 @@ fn mac3(mut acc: &mut [BigDigit], mut b: &[BigDigit], mut c: &[BigDigit]) {
         let (j0_sign, j0) = sub_sign(x1, x0);
         let (j1_sign, j1) = sub_sign(y1, y0);
 
+        #[cfg(num_bigint_verif)]
+        match j0_sign * j1_sign {
+            Plus => crate::verif_probe::hit(18),
+            Minus => crate::verif_probe::hit(19),
+            NoSign => crate::verif_probe::hit(20),
+        }
         match j0_sign * j1_sign {
             Plus => {
                 p.data.truncate(0);
@@ -277,6 +300,8 @@ fn mac3(mut acc: &mut [BigDigit], mut b: &[BigDigit], mut c: &[BigDigit]) {
         }
     } else {
         // Toom-3 multiplication:
+        #[cfg(num_bigint_verif)]
+        crate::verif_probe::hit(17);
         //
         // Toom-3 is like Karatsuba above, but dividing the inputs into three parts.
         // Both are instances of Toom-Cook, using `k=3` and `k=2` respectively.
@@ -397,6 +422,12 @@ fn mac3(mut acc: &mut [BigDigit], mut b: &[BigDigit], mut c: &[BigDigit]) {
         //     add2(&mut acc[..], &result_pos.data);
         //
         // But with less intermediate copying:
+        #[cfg(num_bigint_verif)]
+        for result in [&r0, &comp1, &comp2, &comp3, &r4].iter() {
+            if result.sign() == Minus {
+                crate::verif_probe::hit(21);
+            }
+        }
         for (j, result) in [&r0, &comp1, &comp2, &comp3, &r4].iter().enumerate().rev() {
             match result.sign() {
                 Plus => add2(&mut acc[i * j..], result.digits()),
